@@ -56,15 +56,15 @@ def evaluate(history, lossy):
     from bert_e import exceptions as ex
     from . import gitflow as GF
 
-    class Comment:
+    class Comment(common.HostNames):
         def __init__(self, author, text):
             self.author, self.text = author, text
     comments = [Comment(a, t) for a, t in history]
     posted = []
 
-    class PRObj:
+    class PRObj(common.HostNames):
         id = 1
-        author = 'contributor'
+        _author = 'contributor'
         author_display_name = 'contributor'
         src_branch = 'bugfix/PROJ-1-x'
         dst_branch = 'development/4.3'
